@@ -411,6 +411,164 @@ def translate_repo(repo):
     return "".join(out)
 
 
+# ---------------------------------------------------------------- Date / Time / DateTime
+# The three classes call library functions (strptime, isoformat) that are modelled by hand in
+# coq/Model/Temporal.v; the translator checks that each method has EXACTLY the expected shape and
+# extracts its parameters (the strptime format, the part of isoformat() returned).
+TEMPORAL_FILES = [
+    ("date", "tartiflette/scalar/builtins/date.py", "ScalarDate"),
+    ("time", "tartiflette/scalar/builtins/time.py", "ScalarTime"),
+    ("datetime", "tartiflette/scalar/builtins/datetime.py", "ScalarDateTime"),
+]
+T_INPUT = """
+def coerce_input(self, value):
+    try:
+        result = super().coerce_input(value)
+        return datetime.strptime(result, "__FMT__")
+    except Exception:
+        pass
+    raise TypeError(__ANY__)
+"""
+T_LITERAL = """
+def parse_literal(self, ast):
+    if not isinstance(ast, StringValueNode):
+        return UNDEFINED_VALUE
+    try:
+        return datetime.strptime(ast.value, "__FMT__")
+    except Exception:
+        pass
+    return UNDEFINED_VALUE
+"""
+T_OUTPUT_PART = """
+def coerce_output(self, value):
+    try:
+        return value.isoformat().split("T")[__IDX__]
+    except Exception:
+        pass
+    raise TypeError(__ANY__)
+"""
+T_OUTPUT_WHOLE = """
+def coerce_output(self, value):
+    try:
+        return value.isoformat()
+    except Exception:
+        pass
+    raise TypeError(__ANY__)
+"""
+
+
+def _strip_doc(body):
+    if body and isinstance(body[0], ast.Expr) and isinstance(body[0].value, ast.Constant) \
+            and isinstance(body[0].value.value, str):
+        return body[1:]
+    return body
+
+
+def _tmatch(t, a, holes):
+    """structural comparison of template node t with actual node a; holes are filled in `holes`"""
+    if isinstance(t, ast.Constant) and t.value == "__FMT__":
+        if isinstance(a, ast.Constant) and isinstance(a.value, str):
+            holes["fmt"] = a.value
+            return True
+        return False
+    if isinstance(t, ast.Name) and t.id == "__IDX__":
+        if isinstance(a, ast.Constant) and isinstance(a.value, int) and not isinstance(a.value, bool) and a.value >= 0:
+            holes["idx"] = a.value
+            return True
+        return False
+    if isinstance(t, ast.Name) and t.id == "__ANY__":
+        return isinstance(a, ast.expr)
+    if type(t) is not type(a):
+        return False
+    if isinstance(t, ast.arguments):
+        return [x.arg for x in t.args] == [x.arg for x in a.args] and not (
+            a.vararg or a.kwarg or a.kwonlyargs or a.posonlyargs or a.defaults or a.kw_defaults)
+    if isinstance(t, ast.FunctionDef):
+        return (t.name == a.name and not a.decorator_list and _tmatch(t.args, a.args, holes)
+                and _tmatch_list(_strip_doc(t.body), _strip_doc(a.body), holes))
+    for f in t._fields:
+        if f in ("ctx", "kind", "type_comment"):
+            continue
+        tv, av = getattr(t, f, None), getattr(a, f, None)
+        if isinstance(tv, list):
+            if not isinstance(av, list) or not _tmatch_list(tv, av, holes):
+                return False
+        elif isinstance(tv, ast.AST):
+            if not isinstance(av, ast.AST) or not _tmatch(tv, av, holes):
+                return False
+        elif tv != av:
+            return False
+    return True
+
+
+def _tmatch_list(ts, as_, holes):
+    return len(ts) == len(as_) and all(_tmatch(x, y, holes) for x, y in zip(ts, as_))
+
+
+def _template(src):
+    return ast.parse(src).body[0]
+
+
+def translate_temporal(repo):
+    repo = Path(repo)
+    out = ["(* GENERATED by harness/translate.py (translate_temporal) from the current working tree.\n"
+           "   Do not edit; regenerated on every check run. *)\n",
+           "From Coq Require Import ZArith List String.\n"
+           "From TV Require Import Py.Prelude Gen.Scalars_gen Model.Temporal.\nImport ListNotations.\n"
+           "Open Scope string_scope.\n\n"]
+    for prefix, path, clsname in TEMPORAL_FILES:
+        tree = ast.parse((repo / path).read_text())
+        imports = {}
+        for n in tree.body:
+            if isinstance(n, ast.ImportFrom):
+                for a in n.names:
+                    imports[a.asname or a.name] = (n.module, n.level, a.name)
+            elif isinstance(n, ast.Import):
+                for a in n.names:
+                    imports[a.asname or a.name] = (a.name, 0, None)
+        want = {"datetime": ("datetime", 0, "datetime"), "ScalarString": ("string", 1, "ScalarString"),
+                "StringValueNode": ("tartiflette.language.ast", 0, "StringValueNode"),
+                "UNDEFINED_VALUE": ("tartiflette.constants", 0, "UNDEFINED_VALUE")}
+        for k, v in want.items():
+            if imports.get(k) != v:
+                raise Unsupported("%s: name %s is bound to %r, expected %r" % (path, k, imports.get(k), v))
+        for n in tree.body:        # nothing at module level may rebind these names
+            if isinstance(n, (ast.Assign, ast.AugAssign, ast.AnnAssign, ast.Delete, ast.Global)):
+                raise Unsupported("%s: module-level statement %s" % (path, type(n).__name__))
+        cls = [n for n in tree.body if isinstance(n, ast.ClassDef) and n.name == clsname]
+        if len(cls) != 1:
+            raise Unsupported("class %s not found in %s" % (clsname, path))
+        c = cls[0]
+        if [ast.dump(b) for b in c.bases] != [ast.dump(ast.Name(id="ScalarString", ctx=ast.Load()))] or c.keywords \
+                or c.decorator_list:
+            raise Unsupported("class %s: unexpected bases / decorators" % clsname)
+        methods = {}
+        for n in _strip_doc(c.body):
+            if not isinstance(n, ast.FunctionDef) or n.name in methods:
+                raise Unsupported("class-level statement in %s" % clsname)
+            methods[n.name] = n
+        if set(methods) != {"coerce_output", "coerce_input", "parse_literal"}:
+            raise Unsupported("%s: methods %s" % (clsname, sorted(methods)))
+        hi, hl, ho = {}, {}, {}
+        if not _tmatch(_template(T_INPUT), methods["coerce_input"], hi):
+            raise Unsupported("%s.coerce_input does not have the expected shape" % clsname)
+        if not _tmatch(_template(T_LITERAL), methods["parse_literal"], hl):
+            raise Unsupported("%s.parse_literal does not have the expected shape" % clsname)
+        if _tmatch(_template(T_OUTPUT_PART), methods["coerce_output"], ho):
+            sel = "(Some %d%%nat)" % ho["idx"]
+        elif _tmatch(_template(T_OUTPUT_WHOLE), methods["coerce_output"], ho):
+            sel = "None"
+        else:
+            raise Unsupported("%s.coerce_output does not have the expected shape" % clsname)
+        out.append("Definition %s_input_format : string := %s.\n" % (prefix, coq_string(hi["fmt"])))
+        out.append("Definition %s_literal_format : string := %s.\n" % (prefix, coq_string(hl["fmt"])))
+        out.append("Definition %s_output_sel : option nat := %s.\n" % (prefix, sel))
+        out.append("Definition %s_coerce_input := temporal_coerce_input %s_input_format.\n" % (prefix, prefix))
+        out.append("Definition %s_parse_literal := temporal_parse_literal %s_literal_format.\n" % (prefix, prefix))
+        out.append("Definition %s_coerce_output := temporal_coerce_output %s_output_sel.\n\n" % (prefix, prefix))
+    return "".join(out)
+
+
 def main():
     repo = sys.argv[1] if len(sys.argv) > 1 else "/repo"
     dest = sys.argv[2] if len(sys.argv) > 2 else "/verif/coq/Gen/Scalars_gen.v"
@@ -426,6 +584,17 @@ def main():
     p = Path(dest)
     if not p.exists() or p.read_text() != text:
         p.write_text(text)
+    tdest = p.parent / "Temporal_gen.v"
+    try:
+        ttext = translate_temporal(repo)
+    except (Unsupported, SyntaxError, OSError) as e:
+        # fail closed for what depends on these three modules only (Properties/C10Temporal.v and the temporal
+        # case files of C10 no longer compile); every other property keeps its own tie
+        sys.stderr.write("translate: UNSUPPORTED (temporal): %s\n" % e)
+        ttext = "(* GENERATED: the Date/Time/DateTime modules are outside the supported shape:\n   %s *)\n" % (
+            str(e).replace("*)", "* )"))
+    if not tdest.exists() or tdest.read_text() != ttext:
+        tdest.write_text(ttext)
     return 0
 
 
